@@ -10,7 +10,7 @@
 (* The alphabet is exported for the conformance harness.                   *)
 (***************************************************************************)
 EXTENDS DepFile, TLC, Json, IOUtils, SequencesExt
-CONSTANTS MaxLines
+CONSTANTS MaxLines, Parts, PartNo   \* the run explores the files whose first line has index = PartNo modulo Parts
 
 LineAlphabet == { "a: b", "b: c", "c: a", "a b: c", "b: a c", "c:", "", "a: b \\", "b: c\\", " c a", "c",
                   "a : b", "a\\ b: c", "c: a\\#1 $$x", "x: p\\\\q a\\ b", "f$o.o: c/b a", "b   :a  a",  "a: \\", "$$x: c" }
@@ -19,8 +19,11 @@ LineAlphabet == { "a: b", "b: c", "c: a", "a b: c", "b: a c", "c:", "", "a: b \\
 VARIABLES lines, inbook, rules
 vars == <<lines, inbook, rules>>
 Init == lines = <<>> /\ inbook = TRUE /\ rules = <<>>
+LineSeq == SetToSeq(LineAlphabet)
+FirstLines == {LineSeq[j] : j \in {h \in 1..Len(LineSeq) : h % Parts = PartNo}}
 Next == /\ Len(lines) < MaxLines
-        /\ \E l \in LineAlphabet : /\ lines' = Append(lines, l)
+        /\ \E l \in (IF lines = <<>> THEN FirstLines ELSE LineAlphabet) :
+                                    /\ lines' = Append(lines, l)
                                     /\ inbook' = Specified(Append(lines, l))
                                     /\ rules' = Rules(Append(lines, l))
 Spec == Init /\ [][Next]_vars
